@@ -203,6 +203,7 @@ def main():
         coverage["samples"] += res["samples"].get(prop, [])
         coverage["engines"]["verdict"] = {"cases_total": res["n_cases"], "cases_for_property": n, "rejected_total": res["rejected"],
                                           "control_builds_failed": res["control_failed"], "case_classes": res["notes"].get(prop, {}),
+                                          "pipeline_trace_vs_Resolve_tla": res.get("pipeline_trace"),
                                           "tlc": res["tlc"], "wall_s": res.get("engine_wall_s")}
         groups = collections.OrderedDict()
         for v in res["violations"]:
